@@ -89,7 +89,7 @@ func ruleLexIndentState(c *Ctx) []Obligation {
 	// verbatim in a pattern), compared equal to '\n'
 	underNewline := func(b *ssa.BasicBlock) bool {
 		for _, g := range guardsAt(b) {
-			if bo, ok := g.Cond.(*ssa.BinOp); ok && bo.Op == token.EQL && g.Branch && isRead(bo.X) {
+			if bo, ok := g.Cond.(*ssa.BinOp); ok && isRead(bo.X) && (bo.Op == token.EQL && g.Branch || bo.Op == token.NEQ && !g.Branch) {
 				if k, okk := constInt(bo.Y); okk && k == '\n' {
 					return true
 				}
